@@ -90,6 +90,7 @@ class Attr:
              "SELECT_M": "sel_m", "AGG_INT": "LIST [0:?] OF INTEGER", "AGG_REAL": "SET [0:?] OF REAL",
              "AGG_STR": "LIST [0:?] OF STRING", "AGG_SEL": "LIST [0:?] OF sel_m", "AGG_SELE": "SET [0:?] OF sel_e",
              "AGG_AGG": "LIST [0:?] OF LIST [0:?] OF INTEGER", "BINARY": "BINARY",
+             "AGG_AGG_SEL": "LIST [0:?] OF LIST [0:?] OF sel_m",
              "SELECT_L": "sel_l", "SELECT_N": "sel_out", "SELECT_R": "sel_r", "AGG_SELL": "LIST [0:?] OF sel_l",
              "SELECT_S": "sel_n"}.get(k)
         if t:
@@ -100,6 +101,11 @@ class Attr:
             return f"LIST [0:?] OF {self.target}"
         if k == "AGG_ENTS":
             return f"SET [0:?] OF {self.target}"
+        # aggregates of aggregates of references (b_spline_surface.control_points_list): exp2cxx maps them to GenericAggregate
+        if k == "AGG_AGG_ENT":
+            return f"LIST [0:?] OF LIST [0:?] OF {self.target}"
+        if k == "AGG3_ENT":
+            return f"LIST [0:?] OF LIST [0:?] OF SET [0:?] OF {self.target}"
         return k
 
 
@@ -218,7 +224,10 @@ class Schema:
 
 
 KIND_POOL = (SIMPLE + ["DEF_REAL", "DEF_INT", "ENUM", "ENTITY", "ENTITY", "SELECT_E", "SELECT_T", "SELECT_M",
-                       "AGG_INT", "AGG_REAL", "AGG_STR", "AGG_ENT", "AGG_ENTS", "AGG_SEL", "AGG_SELE", "AGG_AGG"])
+                       "AGG_INT", "AGG_REAL", "AGG_STR", "AGG_ENT", "AGG_ENTS", "AGG_SEL", "AGG_SELE", "AGG_AGG",
+                       "AGG_AGG_ENT", "AGG_AGG_SEL", "AGG3_ENT"])
+
+TARGET_KINDS = ("ENTITY", "AGG_ENT", "AGG_ENTS", "AGG_AGG_ENT", "AGG3_ENT")
 
 
 def gen_schema(rng, name="vs", n_entities=6, max_attrs=4, kinds=None, p_optional=0.4, with_complex=True,
@@ -233,7 +242,7 @@ def gen_schema(rng, name="vs", n_entities=6, max_attrs=4, kinds=None, p_optional
         for i in range(n):
             k = force[i] if force and i < len(force) else rng.choice(kinds)
             opt = rng.random() < p_optional
-            tgt = rng.choice(["t0", "t1"]) if k in ("ENTITY", "AGG_ENT", "AGG_ENTS") else None
+            tgt = rng.choice(["t0", "t1"]) if k in TARGET_KINDS else None
             cnt[0] += 1
             out.append(Attr(f"a{cnt[0]}_{k.lower()}", k, opt, tgt))
         return out
@@ -297,12 +306,13 @@ def table_schema(name="tab"):
             for opt in (False, True):
                 attrs.append(Attr(f"{b.lower()}_d{d}_{'opt' if opt else 'req'}", k, opt))
         ents.append(Entity(f"k_{b.lower()}", None, attrs))
-    rest = ["ENTITY", "SELECT_E", "SELECT_T", "SELECT_M", "SELECT_L", "SELECT_N", "SELECT_R", "AGG_ENT", "AGG_SEL", "AGG_SELL", "AGG_AGG"]
+    rest = ["ENTITY", "SELECT_E", "SELECT_T", "SELECT_M", "SELECT_L", "SELECT_N", "SELECT_R", "AGG_ENT", "AGG_SEL", "AGG_SELL", "AGG_AGG",
+            "AGG_AGG_ENT", "AGG_AGG_SEL", "AGG3_ENT"]
     for i in range(0, len(rest), 4):
         attrs = []
         for k in rest[i:i + 4]:
             for opt in (False, True):
-                attrs.append(Attr(f"{k.lower()}_{'opt' if opt else 'req'}", k, opt, "t0" if k in ("ENTITY", "AGG_ENT") else None))
+                attrs.append(Attr(f"{k.lower()}_{'opt' if opt else 'req'}", k, opt, "t0" if k in TARGET_KINDS else None))
         ents.append(Entity(f"k_other{i // 4}", None, attrs))
     # redeclared simple-typed attributes (narrower type) and attributes redeclared as DERIVEd
     ents.append(Entity("rq", None, [Attr("rq_label", "STRING", False), Attr("rq_n", "NUMBER", False), Attr("rq_i", "INTEGER", False),
@@ -404,6 +414,16 @@ def gen_value(rng, attr, schema, pool):
         return ("aggr", [("ref", i) for i in rng.sample(c, min(len(c), rng.randint(0, 3)))])
     if k == "AGG_AGG":
         return aggr(lambda: aggr(lambda: ("tok", rng.choice(INTS)), 0, 2), 0, 2)
+    if k == "AGG_AGG_ENT":
+        return ("aggr", [("aggr", [v for v in (ref(attr.target) for _ in range(rng.randint(0, 3))) if v]) for _ in range(rng.randint(1, 3))])
+    if k == "AGG3_ENT":
+        def inner():
+            c = sorted({i for n, ids in pool.items() if schema.is_a(n, attr.target) for i in ids})
+            return ("aggr", [("ref", i) for i in rng.sample(c, min(len(c), rng.randint(0, 2)))])
+        return ("aggr", [("aggr", [inner() for _ in range(rng.randint(1, 2))]) for _ in range(rng.randint(1, 2))])
+    if k == "AGG_AGG_SEL":
+        return ("aggr", [("aggr", [v for v in (rng.choice([ref(schema.targets[0]), ("typed", "LEN_T", ("tok", rng.choice(REALS)))])
+                                               for _ in range(rng.randint(0, 3))) if v]) for _ in range(rng.randint(1, 2))])
     raise ValueError(k)
 
 
